@@ -102,7 +102,7 @@ func (s *occServer) Transition(ctx context.Context, req *pb.TransitionRequest) (
 	if s.state == "DONE" && s.beh.ExitOnDone >= 0 {
 		code := s.beh.ExitOnDone
 		go func() {
-			time.Sleep(150 * time.Millisecond)
+			time.Sleep(100 * time.Millisecond)
 			os.Exit(code)
 		}()
 	}
@@ -157,7 +157,7 @@ func occMain(dir string) {
 		c := exec.Command("/bin/sh", "-c", "trap '' TERM INT HUP; exec sleep 300")
 		c.Stdin, c.Stdout, c.Stderr = nil, nil, nil
 		if err := c.Start(); err == nil {
-			os.WriteFile(filepath.Join(dir, "gcpid"), []byte(fmt.Sprintf("%d\n", c.Process.Pid)), 0o644)
+			appendLine(filepath.Join(dir, "gcpids"), fmt.Sprintf("%d", c.Process.Pid))
 		}
 	}
 	writePidFile(dir)
